@@ -83,8 +83,8 @@ type IterOp struct {
 
 // Fault is one entry of the fault plan.
 type Fault struct {
-	At    int    `json:"at"`             // file-op index (counted over fault-eligible ops)
-	Kind  string `json:"kind"`           // write-eio | write-short | write-enospc | sync-eio | stat-eio | open-eio | remove-eio | readdir-eio | llu-err | llu-stall
+	At    int    `json:"at"`              // file-op index (counted over fault-eligible ops)
+	Kind  string `json:"kind"`            // write-eio | write-short | write-enospc | sync-eio | stat-eio | open-eio | remove-eio | readdir-eio | llu-err | llu-stall
 	Count int    `json:"count,omitempty"` // burst length (default 1); -1 = persistent until Until
 	Until int    `json:"until,omitempty"` // op index at which a persistent fault stops (0 = never)
 	Frac  int    `json:"frac,omitempty"`  // short write: per-mille of the buffer that reaches the file
@@ -92,20 +92,20 @@ type Fault struct {
 
 // Case is everything that defines one run.
 type Case struct {
-	Prop     string    `json:"prop"`
-	Index    int       `json:"index"`
-	Seed     uint64    `json:"seed"`      // base seed (VERIF_SEED)
-	SchedSeed uint64   `json:"schedSeed"` // seed of the scheduler PRNG
-	Policy   PolicySpec `json:"policy"`
-	MaxSteps int64     `json:"maxSteps,omitempty"`
-	Opts     Opts      `json:"opts"`
-	Prog     []Op      `json:"prog,omitempty"`
-	Drivers  [][]Op    `json:"drivers,omitempty"` // multi-driver programs
-	Faults   []Fault   `json:"faults,omitempty"`
-	Flags    map[string]bool `json:"flags,omitempty"` // oracle switches
-	ROProg   []Op      `json:"roProg,omitempty"`  // C18: program run against the read-only collection
-	Decisions []uint32 `json:"decisions,omitempty"` // optional decision log to follow
-	VerifyAtomic bool  `json:"verifyAtomic,omitempty"`
+	Prop         string          `json:"prop"`
+	Index        int             `json:"index"`
+	Seed         uint64          `json:"seed"`      // base seed (VERIF_SEED)
+	SchedSeed    uint64          `json:"schedSeed"` // seed of the scheduler PRNG
+	Policy       PolicySpec      `json:"policy"`
+	MaxSteps     int64           `json:"maxSteps,omitempty"`
+	Opts         Opts            `json:"opts"`
+	Prog         []Op            `json:"prog,omitempty"`
+	Drivers      [][]Op          `json:"drivers,omitempty"` // multi-driver programs
+	Faults       []Fault         `json:"faults,omitempty"`
+	Flags        map[string]bool `json:"flags,omitempty"`     // oracle switches
+	ROProg       []Op            `json:"roProg,omitempty"`    // C18: program run against the read-only collection
+	Decisions    []uint32        `json:"decisions,omitempty"` // optional decision log to follow
+	VerifyAtomic bool            `json:"verifyAtomic,omitempty"`
 }
 
 // PolicySpec mirrors simrt.Policy for JSON.
@@ -121,12 +121,12 @@ type PolicySpec struct {
 
 // Violation is what an oracle reports.
 type Violation struct {
-	Prop   string `json:"prop"`
-	Class  string `json:"class"`  // stable, coarse: used to decide "same violation" while minimising
-	Msg    string `json:"msg"`    // human readable detail
-	OpIdx  int    `json:"opIdx"`  // program index at which it was detected
+	Prop   string            `json:"prop"`
+	Class  string            `json:"class"`            // stable, coarse: used to decide "same violation" while minimising
+	Msg    string            `json:"msg"`              // human readable detail
+	OpIdx  int               `json:"opIdx"`            // program index at which it was detected
 	Detail map[string]string `json:"detail,omitempty"` // trigger/symptom facts for known-finding matching
-	Stack  string `json:"stack,omitempty"`
+	Stack  string            `json:"stack,omitempty"`
 }
 
 func (v *Violation) String() string {
@@ -135,32 +135,32 @@ func (v *Violation) String() string {
 
 // Outcome of one executed case.
 type Outcome struct {
-	Case      *Case      `json:"-"`
-	ReplayCase *Case     `json:"-"` // when set, the case to store in the replay file instead of Case
-	Violation *Violation `json:"violation,omitempty"`
-	Steps     int64      `json:"steps"`
-	Switches  int64      `json:"switches"`
-	SimNanos  int64      `json:"simNanos"`
-	TraceHash uint64     `json:"traceHash"`
-	InterHash uint64     `json:"interHash"`
-	Tasks     int        `json:"tasks"`
-	Stranded  int        `json:"stranded"`
-	StepLimit bool       `json:"stepLimit,omitempty"`
-	Decisions []uint32   `json:"-"`
-	Faults    map[string]int `json:"faults,omitempty"` // fired fault kinds
-	Probes    map[string]int `json:"probes,omitempty"` // reach probes
-	Shapes    []string   `json:"shapes,omitempty"`
-	NonTrivial bool      `json:"nonTrivial"`
-	FileOps   int        `json:"fileOps,omitempty"`
-	Images    int        `json:"images,omitempty"`
-	Checks    int        `json:"checks,omitempty"`
-	CaseHash  uint64     `json:"caseHash"`
-	PolicyKind string    `json:"policyKind,omitempty"`
-	CrashPoints int      `json:"crashPoints,omitempty"`
-	FaultPoints int      `json:"faultPoints,omitempty"`
-	RaceReports int      `json:"raceReports,omitempty"`
-	OnErrors  int        `json:"onErrors,omitempty"`
-	LastErrors []string  `json:"lastErrors,omitempty"`
+	Case        *Case          `json:"-"`
+	ReplayCase  *Case          `json:"-"` // when set, the case to store in the replay file instead of Case
+	Violation   *Violation     `json:"violation,omitempty"`
+	Steps       int64          `json:"steps"`
+	Switches    int64          `json:"switches"`
+	SimNanos    int64          `json:"simNanos"`
+	TraceHash   uint64         `json:"traceHash"`
+	InterHash   uint64         `json:"interHash"`
+	Tasks       int            `json:"tasks"`
+	Stranded    int            `json:"stranded"`
+	StepLimit   bool           `json:"stepLimit,omitempty"`
+	Decisions   []uint32       `json:"-"`
+	Faults      map[string]int `json:"faults,omitempty"` // fired fault kinds
+	Probes      map[string]int `json:"probes,omitempty"` // reach probes
+	Shapes      []string       `json:"shapes,omitempty"`
+	NonTrivial  bool           `json:"nonTrivial"`
+	FileOps     int            `json:"fileOps,omitempty"`
+	Images      int            `json:"images,omitempty"`
+	Checks      int            `json:"checks,omitempty"`
+	CaseHash    uint64         `json:"caseHash"`
+	PolicyKind  string         `json:"policyKind,omitempty"`
+	CrashPoints int            `json:"crashPoints,omitempty"`
+	FaultPoints int            `json:"faultPoints,omitempty"`
+	RaceReports int            `json:"raceReports,omitempty"`
+	OnErrors    int            `json:"onErrors,omitempty"`
+	LastErrors  []string       `json:"lastErrors,omitempty"`
 }
 
 func hashBytes(b []byte) uint64 {
